@@ -23,6 +23,8 @@ Components
   limitsweep  one contract batch under EVERY staging limit 1, 1+stride, … past the sum of all estimates, each against
             the real sequential loop (every served limit gives the same bytes; every limit >= the largest record
             estimate is served)
+  fallback  the driver's sequential fall-back with the REAL pipeline and REAL apply_changes over 4-6 turns (snapshot
+            cadence 2/3/4, on-apply cache busting) vs the same turns through Orchestrator.run_turn directly
   realpipe  the unmodified driver with the real stage pipeline on small rig worlds (known findings).
 """
 from __future__ import annotations
@@ -147,7 +149,8 @@ class with_env:
 # ---------------------------------------------------------------------------
 # states in the shapes `_resolve_graphs_for_agent` reads
 # ---------------------------------------------------------------------------
-AGENT_KINDS = ["agents", "agents", "gba", "gba", "both", "agents_none", "empty_entry", "none", "gba_none", "obj", "agents_empty"]
+AGENT_KINDS = ["agents", "agents", "gba", "gba", "both", "agents_none", "empty_entry", "none", "gba_none", "obj", "agents_empty",
+               "profile_only", "obj_nographs", "obj_none", "entry_none", "profile_only_nogba"]
 
 
 def build_agent_maps(agents_spec: List[list]) -> Tuple[dict, dict]:
@@ -169,6 +172,20 @@ def build_agent_maps(agents_spec: List[list]) -> Tuple[dict, dict]:
             gba[aid] = list(g1)
         elif kind == "empty_entry":
             agents[aid] = {}
+            gba[aid] = list(g1)
+        elif kind == "profile_only":          # a record without any graph list: graphs_by_agent decides
+            agents[aid] = {"name": aid, "role": "x"}
+            gba[aid] = list(g1)
+        elif kind == "profile_only_nogba":
+            agents[aid] = {"name": aid}
+        elif kind == "obj_nographs":          # attribute-style record without .graphs
+            agents[aid] = SNS(name=aid)
+            gba[aid] = list(g1)
+        elif kind == "obj_none":
+            agents[aid] = SNS(graphs=None)
+            gba[aid] = list(g1)
+        elif kind == "entry_none":
+            agents[aid] = None
             gba[aid] = list(g1)
         elif kind == "gba_none":
             gba[aid] = None
@@ -192,9 +209,11 @@ def resolver_inputs(agents_spec: List[list]) -> Tuple[list, list]:
         elif kind == "both":
             ag.append([aid, s1])
             gb.append([aid, s2])
-        elif kind in ("agents_none", "empty_entry"):
+        elif kind in ("agents_none", "empty_entry", "profile_only", "obj_nographs", "obj_none", "entry_none"):
             ag.append([aid, None])
             gb.append([aid, s1])
+        elif kind == "profile_only_nogba":
+            ag.append([aid, None])
         elif kind == "gba_none":
             gb.append([aid, []])
     return ag, gb
@@ -374,6 +393,61 @@ def script_of(case: dict, aid: str, text: str) -> dict:
     return {"agent": aid, "text": text, "turn": case["turn"], "slice": case["slice"], "reads": [], "logs": [], "deltas": [], "line": ""}
 
 
+DELTA_SHAPES = ["tuple", "tuple", "obj", "obj", "dict", "obj_f"]
+ZERO_SHAPES = ["obj_f", "obj_negzero", "obj", "dict", "tuple"]
+
+
+def mk_delta(g: str, inc: int, shape: str):
+    """an approved-delta entry in one of the shapes the hand-over must carry verbatim: ProposedDelta objects (int, float,
+    -0.0 magnitudes), dict-shaped entries, plain pairs."""
+    from clematis.engine.types import ProposedDelta
+    if shape == "obj":
+        return ProposedDelta("node", g, "weight", inc)
+    if shape == "obj_f":
+        return ProposedDelta("node", g, "weight", float(inc))
+    if shape == "obj_negzero":
+        return ProposedDelta("node", g, "weight", -0.0 if inc == 0 else float(inc))
+    if shape == "dict":
+        return {"target": g, "delta": inc}
+    return (g, inc)
+
+
+def read_delta(d) -> Tuple[Any, Any]:
+    if isinstance(d, (tuple, list)):
+        return d[0], d[1]
+    if isinstance(d, dict):
+        return d["target"], d["delta"]
+    return d.target_id, d.delta
+
+
+def script_deltas(sc: dict) -> list:
+    shapes = sc.get("delta_shapes") or []
+    return [mk_delta(g, inc, shapes[i] if i < len(shapes) else "tuple") for i, (g, inc) in enumerate(sc["deltas"])]
+
+
+_HOLDERS: Optional[List[str]] = None
+CLONE_LIST = ["cfg", "config", "now", "now_ms", "seed", "slice_idx", "slice_budgets"]
+
+
+def ctx_holders() -> List[str]:
+    """ctx attributes the stages read: derived from the source of run_turn (orchestrator/core.py) and apply_changes
+    (engine/apply.py) — `ctx.X` / `getattr(ctx, "X"` — plus the driver's documented clone list."""
+    global _HOLDERS
+    if _HOLDERS is None:
+        import re
+        from harness.core import REPO
+        names = set(CLONE_LIST)
+        for rel in ("clematis/engine/orchestrator/core.py", "clematis/engine/apply.py"):
+            try:
+                src = (REPO / rel).read_text(encoding="utf-8")
+            except Exception:
+                continue
+            names |= set(re.findall(r"\bctx\.([A-Za-z_][A-Za-z0-9_]*)", src))
+            names |= set(re.findall(r"getattr\(\s*ctx\s*,\s*[\"']([A-Za-z_][A-Za-z0-9_]*)[\"']", src))
+        _HOLDERS = sorted(n for n in names if n not in ("agent_id", "turn_id", "get") and not n.startswith("_"))
+    return _HOLDERS
+
+
 class RigAbort(Exception):
     """injected failure of a scripted turn / apply function."""
 
@@ -399,6 +473,8 @@ class World:
         self.dry_calls = 0
         self.full_calls = 0
         self.apply_trace: List[list] = []    # [task id, deltas] per apply_changes call, in call order
+        self.src_ctx = None                  # the ctx handed to the driver: every per-agent clone is compared with it
+        self.clone_bad: List[str] = []
 
     def set_batch(self, case: dict, limit: int, logdir: Path) -> None:
         self.case, self.limit, self.logdir = case, limit, logdir
@@ -407,6 +483,7 @@ class World:
         self.computed = []
         self.staging_calls = self.dry_calls = self.full_calls = 0
         self.apply_trace = []
+        self.clone_bad = []
 
     def path_taken(self) -> dict:
         return {"path": "batch" if self.staging_calls else "sequential", "staging_calls": self.staging_calls,
@@ -430,14 +507,14 @@ class World:
         world = self
 
         def apply_changes(ctx, state, t4):
-            ds = list(getattr(t4, "approved_deltas", []) or [])
+            ds = [read_delta(d) for d in list(getattr(t4, "approved_deltas", []) or [])]
             ident = [g for g, _ in ds if isinstance(g, str) and g.startswith("__task__:")]
             ds = [d for d in ds if not (isinstance(d[0], str) and d[0].startswith("__task__:"))]
-            world.apply_trace.append([ident[0][9:] if ident else "?", [list(d) for d in ds if d[0] != "__raise__"]])
+            world.apply_trace.append([ident[0][9:] if ident else "?", [[g, int(inc)] for g, inc in ds if g != "__raise__"]])
             if any(g == "__raise__" for g, _ in ds):
                 raise RigAbort("apply")
             for g, inc in ds:
-                state.graphs[g] = state.graphs.get(g, 0) + inc
+                state.graphs[g] = state.graphs.get(g, 0) + int(inc)   # additive, non-idempotent store double
             state.version += 1
             v = state.version
             return SNS(applied=len(ds), clamps=0, version_etag=v, snapshot_path=7 * v, metrics={"cache_invalidations": len(ds)})
@@ -447,6 +524,21 @@ class World:
             case = world.case
             sc = script_of(case, aid, text)
             dry = bool(getattr(ctx, "_dry_run_until_t4", False))
+            src = world.src_ctx
+            if src is not None and ctx is not src:
+                bad = []
+                for attr in ctx_holders():
+                    if hasattr(src, attr):
+                        if not hasattr(ctx, attr):
+                            bad.append(f"{attr}: missing on the per-agent ctx")
+                        elif getattr(ctx, attr) is not getattr(src, attr):
+                            bad.append(f"{attr}: not the source ctx's object")
+                if type(ctx.turn_id) is not type(src.turn_id) or ctx.turn_id != src.turn_id:
+                    bad.append(f"turn_id: {ctx.turn_id!r} vs {src.turn_id!r}")
+                if not hasattr(ctx, "_dry_run_until_t4"):
+                    bad.append("_dry_run_until_t4: missing")
+                with world.lock:
+                    world.clone_bad.extend(bad)
             with world.lock:
                 if dry:
                     world.dry_calls += 1
@@ -480,7 +572,7 @@ class World:
             if sc.get("raise_compute"):
                 raise RigAbort("compute")
             # the approved batch carries its task's identity so that the scripted apply can count hand-offs per task
-            deltas = [tuple(d) for d in sc["deltas"]] + ([("__raise__", 0)] if sc.get("raise_apply") else []) + [(f"__task__:{aid}/{text}", 0)]
+            deltas = script_deltas(sc) + ([("__raise__", 0)] if sc.get("raise_apply") else []) + [(f"__task__:{aid}/{text}", 0)]
             if dry:
                 ctx._dryrun_t4 = SNS(approved_deltas=deltas)
                 ctx._dryrun_utter = line
@@ -531,7 +623,23 @@ def make_ctx(case: dict, enabled: bool, agents_flag: bool):
         del cfg["perf"]["enabled"]
     else:
         cfg["perf"]["enabled"] = pe
-    return SNS(turn_id=case["turn"], slice_idx=case["slice"], cfg=cfg, now_ms=None, agent_id="batch")
+    extra = {}
+    shape = case.get("ctx_shape") or []
+    if "now_ms" in shape:
+        extra["now_ms"] = 1_767_225_600_000
+    if "config_same" in shape:
+        extra["config"] = cfg
+    elif "config_copy" in shape:
+        extra["config"] = copy.deepcopy(cfg)
+    if "seed" in shape:
+        extra["seed"] = 1234
+    if "budgets" in shape:
+        extra["slice_budgets"] = {"t1_iters": 3, "t2_k": 2}
+    if "now" in shape:
+        extra["now"] = "2026-01-01T00:00:00Z"
+    kw = dict(turn_id=case["turn"], slice_idx=case["slice"], cfg=cfg, now_ms=None, agent_id="batch")
+    kw.update(extra)
+    return SNS(**kw)
 
 
 def observe(state, res, logdir: Path, err: Optional[str]) -> dict:
@@ -558,6 +666,7 @@ def run_real(case: dict, mode: str) -> dict:
             else:
                 ctx = make_ctx(case, case["enabled"], case["agents_flag"])
                 tasks = [tuple(t) for t in case["tasks"]]
+            w.src_ctx = ctx
             if kind == "perm":
                 # compute phases in real threads, forced to FINISH in the order case["perm"]; buffers handed over by task
                 base = par._make_readonly_snapshot(state)
@@ -607,6 +716,7 @@ def run_real(case: dict, mode: str) -> dict:
             out = observe(state, res, d, err)
             out.update(w.path_taken())
             out["applies"] = [list(x) for x in w.apply_trace]
+            out["clone_bad"] = sorted(set(w.clone_bad))
             par_on = bool(ctx.cfg["perf"]["parallel"]["enabled"] and ctx.cfg["perf"]["parallel"]["agents"] and case["mw"] > 1)
             out["computed"] = [list(t) for t in (asked if (kind == "perm" and par_on) else w.computed)]
             return out
@@ -654,6 +764,17 @@ def apply_once(run: dict) -> Optional[str]:
     want = [f"{a}/{t}" for a, t in run["computed"]]
     if run["ok"] and len(want) == len(set(want)) and sorted(ids) != sorted(want):
         return f"finished, but apply was called for {ids} while the executed tasks are {want}"
+    return None
+
+
+def approved_verbatim(case: dict, run: dict) -> Optional[str]:
+    """what reaches apply_changes for a task is that task's approved list verbatim: same length, order, multiplicity."""
+    for ident, got in run["applies"]:
+        aid, _, text = ident.partition("/")
+        want = [[g, int(inc)] for g, inc in script_of(case, aid, text)["deltas"]]
+        if got != want:
+            sc = script_of(case, aid, text)
+            return (f"task {ident}: approved {want} (shapes {sc.get('delta_shapes')}) but apply received {got}")
     return None
 
 
@@ -718,7 +839,15 @@ class BatchComp(Component):
             deltas = [[g, rng.choice([1, 2, -1, 10])] for g in own if rng.random() < 0.7]
             if deltas and rng.random() < 0.2:
                 deltas.append([deltas[0][0], 5])
-            sc = {"agent": aid, "text": text, "turn": turn, "slice": sl, "reads": reads, "logs": logs, "deltas": deltas, "line": f"L{k}{aid}",
+            shapes = [rng.choice(DELTA_SHAPES) for _ in deltas]
+            if deltas and rng.random() < 0.3:       # two EQUAL additive entries (same target, amount and shape): both must be applied
+                j = rng.randrange(len(deltas))
+                deltas.append(list(deltas[j]))
+                shapes.append(shapes[j])
+            if own and rng.random() < 0.3:          # an approved entry of magnitude exactly 0 / 0.0 / -0.0 still reaches apply
+                deltas.insert(rng.randrange(len(deltas) + 1), [rng.choice(own), 0])
+                shapes.insert(deltas.index([d for d in deltas if d[1] == 0][0]), rng.choice(ZERO_SHAPES))
+            sc = {"agent": aid, "text": text, "turn": turn, "slice": sl, "reads": reads, "logs": logs, "deltas": deltas, "delta_shapes": shapes, "line": f"L{k}{aid}",
                   "reuse": rng.random() < 0.4}
             scripts.append(sc)
         others = lambda aid: [g for g in GRAPHS if g not in gs.get(aid, [])]
@@ -754,6 +883,7 @@ class BatchComp(Component):
         rng.shuffle(perm)
         return {"style": style, "ci_env": rng.choice(["", "", "true", "true", "TRUE"]), "limit": limit, "enabled": enabled, "agents_flag": agents_flag,
                 "perf_enabled": rng.choice([True, True, False, None]),
+                "ctx_shape": [f for f in (rng.choice(["config_same", "config_same", "config_copy", "no_config"]), "seed", "budgets", "now", "now_ms") if f == "config_same" or f == "config_copy" or (f != "no_config" and rng.random() < 0.5)],
                 "mw": mw, "turn": turn, "slice": sl, "world": world, "agents": spec, "tasks": tasks, "scripts": scripts, "perm": perm}
 
     # -- implementation -------------------------------------------------------
@@ -909,6 +1039,11 @@ class BatchComp(Component):
         if not par_on:
             res.append(("gate_off_runs_every_task_sequentially", parr["computed"] == [list(t) for t in case["tasks"]] and len(parr["lines"]) == len(case["tasks"]),
                         f"parallel gate is off (enabled={case['enabled']} agents={case['agents_flag']} max_workers={case['mw']}) but executed {parr['computed']} of {case['tasks']}"))
+        for run_name, r in (("batch/fall-back run", parr), ("sequential loop", seq)):
+            res.append(("ctx_clone_carries_every_holder_the_stages_read", not r.get("clone_bad"),
+                        f"{run_name}: {r.get('clone_bad')} (source ctx holders: {sorted(case.get('ctx_shape') or [])})"))
+        dv = approved_verbatim(case, parr)
+        res.append(("apply_receives_the_approved_list_verbatim", dv is None, str(dv)))
         d1 = apply_once(parr)
         res.append(("each_approved_batch_reaches_apply_exactly_once", d1 is None, f"limit={case['limit']}: {d1}; apply calls = {parr['applies']}"))
         if parr["ok"] and distinct and contract_ok(case, parr["computed"]):
@@ -967,6 +1102,17 @@ class BatchComp(Component):
             t.add("perf_enabled_off_or_absent")
         if any(script_of(case, a, x).get("reuse") and len(script_of(case, a, x)["logs"]) > 1 for a, x in parr["computed"]):
             t.add("payload_dict_reused_across_emits")
+        for a, x in parr["computed"]:
+            sc = script_of(case, a, x)
+            ds = [tuple(d) + (sh,) for d, sh in zip(sc["deltas"], sc.get("delta_shapes") or [])]
+            if len(set(ds)) < len(ds):
+                t.add("approved_list_with_equal_duplicates")
+            if any(d[1] == 0 for d in sc["deltas"]):
+                t.add("approved_zero_delta")
+            if any(sh in ("obj", "obj_f", "obj_negzero") for sh in sc.get("delta_shapes") or []):
+                t.add("approved_ProposedDelta_objects")
+        if any(f.startswith("config") for f in case.get("ctx_shape") or []):
+            t.add("ctx_with_cfg_and_config")
         if case["perm"] != sorted(case["perm"]):
             t.add("finish_order_permuted")
         if [a for a, _ in case["tasks"]] != sorted(a for a, _ in case["tasks"]):
@@ -1166,6 +1312,7 @@ class HistoryComp(Component):
             with World(c0, c0["limit"], root / "b0") as w:
                 state = make_state(c0)
                 ctx = make_ctx(c0, True, True)     # ONE ctx for the whole history
+                w.src_ctx = ctx
                 for k in range(len(case["batches"])):
                     ck = self._batch_case(case, k)
                     d = root / f"b{k}"
@@ -1354,7 +1501,102 @@ class RealPipeComp(Component):
         return [f"snapshot:{case['snapshot']}", "raised" if impl_out["par"]["raised"] else "completed"]
 
 
-COMPONENTS = [SelectComp(), GateComp(), BatchComp(), HistoryComp(), LimitSweepComp(), RealPipeComp()]
+class FallbackComp(Component):
+    """The driver's sequential fall-back (agent parallelism off) with the REAL stage pipeline and the REAL apply_changes:
+    a sequence of turns through `_run_agents_parallel_batch` (per-agent ctx CLONE) against the same turns through
+    `Orchestrator.run_turn` directly (no clone) on an identical world, with a snapshot cadence != 1 and on-apply cache
+    busting: apply records (snapshot written or not, cache invalidations, version), snapshot files and results must agree."""
+    name = "fallback"
+    budget = {"quick": 6, "thorough": 30, "search": 12}
+
+    def gen(self, rng, i):
+        return {"world": i % len(REAL_WORLDS), "every": [3, 2, 3, 4][i % 4], "bust": ["on-apply", "on-apply", "none"][i % 3],
+                "turns": rng.choice([4, 5, 6]), "texts": rng.sample(["hello", "world", "tea", "alpha", "what about the cup", "pot"], 3),
+                "first_turn": rng.choice([1, 1, 2, 7])}
+
+    def _spec(self, case):
+        spec = dict(REAL_WORLDS[case["world"]])
+        spec["cfg"] = {"perf": {"enabled": True, "parallel": {"enabled": False, "agents": False, "max_workers": 1}},
+                       "t4": {"snapshot_every_n_turns": case["every"], "cache_bust_mode": case["bust"]}}
+        return spec
+
+    def _through_driver(self, case) -> dict:
+        import contextlib
+        from harness.lib import turnrig as TR
+        from clematis.engine.orchestrator import parallel as par
+        d = scratch_dir("fb_drv")
+        try:
+            w = TR.build_world(d, self._spec(case))
+            envcm = TR._env if hasattr(TR._env, "__wrapped__") else contextlib.contextmanager(TR._env)
+            lines, raised, snaps = [], None, []
+            with envcm(w):
+                for k in range(case["turns"]):
+                    ctx = TR.make_ctx(w, case["first_turn"] + k)
+                    try:
+                        res = par._run_agents_parallel_batch(ctx, w.state, [(w.agent, case["texts"][k % len(case["texts"])])])
+                        lines.append([r.line for r in res])
+                    except Exception as e:
+                        raised = f"{type(e).__name__}@{_raise_site(e)}: {str(e)[:120]}"
+                        break
+                    snaps.append(sorted(p.name for p in w.snap_dir.iterdir()))
+            recs = []
+            p = w.log_dir / "apply.jsonl"
+            if p.exists():
+                recs = [TR.canon_record(json.loads(l)) for l in p.read_text(encoding="utf-8").splitlines() if l.strip()]
+            return {"raised": raised, "lines": lines, "apply": recs, "snaps": snaps}
+        finally:
+            shutil.rmtree(d, ignore_errors=True)
+
+    def _direct(self, case) -> dict:
+        from harness.lib import turnrig as TR
+        d = scratch_dir("fb_dir")
+        try:
+            w = TR.build_world(d, self._spec(case))
+            lines, recs, snaps, raised = [], [], [], None
+            for k in range(case["turns"]):
+                run = TR.run_turn(w, case["texts"][k % len(case["texts"])], turn_id=case["first_turn"] + k)
+                if run.raised:
+                    raised = str(run.raised)
+                    break
+                lines.append([run.result["line"]])
+                recs.extend(run.files.get("apply", []))
+                snaps.append(sorted(p.name for p in w.snap_dir.iterdir()))
+            return {"raised": raised, "lines": lines, "apply": recs, "snaps": snaps}
+        finally:
+            shutil.rmtree(d, ignore_errors=True)
+
+    def impl(self, case):
+        return {"driver": self._through_driver(case), "direct": self._direct(case)}
+
+    def request(self, case):
+        return {"c": "const", "v": 0}
+
+    def compare(self, case, impl_out, model_out):
+        return None
+
+    def monitors(self, case, impl_out):
+        a, b = impl_out["driver"], impl_out["direct"]
+        if b["raised"]:
+            return [("fallback_reference_completes", False, b["raised"])]
+        res = [("fallback_completes", a["raised"] is None, str(a["raised"]))]
+        if a["raised"] is None:
+            res.append(("fallback_results_equal_direct_turns", a["lines"] == b["lines"], f"driver={a['lines']} direct={b['lines']}"))
+            res.append(("fallback_apply_records_equal_direct_turns", a["apply"] == b["apply"],
+                        f"snapshot_every_n_turns={case['every']} cache_bust_mode={case['bust']}: through the driver {json.dumps(a['apply'])[:300]} direct {json.dumps(b['apply'])[:300]}"))
+            res.append(("fallback_snapshot_cadence_equals_direct_turns", a["snaps"] == b["snaps"], f"driver={a['snaps']} direct={b['snaps']}"))
+        return res
+
+    def tags(self, case, impl_out):
+        b = impl_out["direct"]
+        t = {f"every:{case['every']}", f"bust:{case['bust']}"}
+        if any(not r.get("snapshot") for r in b["apply"]) and any(r.get("snapshot") for r in b["apply"]):
+            t.add("cadence_skips_and_writes")
+        if any((r.get("cache_invalidations") or 0) > 0 for r in b["apply"]):
+            t.add("cache_busted")
+        return sorted(t)
+
+
+COMPONENTS = [SelectComp(), GateComp(), BatchComp(), HistoryComp(), LimitSweepComp(), RealPipeComp(), FallbackComp()]
 
 
 def run(ctx: Ctx) -> None:
